@@ -28,6 +28,27 @@ SHIMS = {
     "sync/atomic": 'atomic "verif/engine/shim/vatomic"',
     "time": 'time "verif/engine/shim/vtime"',
 }
+def apply_shims(rel, which, rep, tag=""):
+    pkgdir = os.path.join(REPO, rel)
+    for f in sorted(os.listdir(pkgdir)):
+        if not f.endswith(".go") or f.endswith("_test.go"):
+            continue
+        target = os.path.join(pkgdir, f)
+        src = open(rep.get(target, target)).read()
+        new = src
+        for w in which:
+            imp, _, only = w.partition("@")
+            if only and only != f:
+                continue
+            pat = re.compile(r'^(\s*)(?:[A-Za-z_][A-Za-z0-9_]*\s+)?"' + re.escape(imp) + r'"\s*$', re.M)
+            new = pat.sub(lambda m: m.group(1) + SHIMS[imp], new)
+        if new != src:
+            dst = os.path.join(GEN, tag + rel.replace("/", "__") + "__" + f)
+            old = open(dst).read() if os.path.exists(dst) else None
+            if old != new:
+                open(dst, "w").write(new)
+            rep[target] = dst
+
 shim_file = os.path.join(VERIF, "ovl", "shims.txt")
 if os.path.exists(shim_file):
     for line in open(shim_file):
@@ -35,26 +56,7 @@ if os.path.exists(shim_file):
         if not line:
             continue
         parts = line.split()
-        rel, which = parts[0], parts[1:]
-        pkgdir = os.path.join(REPO, rel)
-        for f in sorted(os.listdir(pkgdir)):
-            if not f.endswith(".go") or f.endswith("_test.go"):
-                continue
-            # optional file filter: import@file.go
-            src = open(os.path.join(pkgdir, f)).read()
-            new = src
-            for w in which:
-                imp, _, only = w.partition("@")
-                if only and only != f:
-                    continue
-                pat = re.compile(r'^(\s*)(?:[A-Za-z_][A-Za-z0-9_]*\s+)?"' + re.escape(imp) + r'"\s*$', re.M)
-                new = pat.sub(lambda m: m.group(1) + SHIMS[imp], new)
-            if new != src:
-                dst = os.path.join(GEN, rel.replace("/", "__") + "__" + f)
-                old = open(dst).read() if os.path.exists(dst) else None
-                if old != new:
-                    open(dst, "w").write(new)
-                replace[os.path.join(pkgdir, f)] = dst
+        apply_shims(parts[0], parts[1:], replace)
 
 def write_overlay(name, rep):
     ov = json.dumps({"Replace": rep}, indent=1, sort_keys=True)
@@ -82,6 +84,10 @@ if os.path.isdir(prof_dir):
                 continue
             kind, rel = line.split()[:2]
             only = line.split()[2:]  # optional file filter
+            if kind == "shim":
+                # shim <pkg path> <import>[@file.go] ...: import shims for this profile only
+                apply_shims(rel, line.split()[2:], rep, "ps__" + pf[:-4] + "__")
+                continue
             if kind == "subst":
                 # subst <repo file> <subst spec under /verif/ovl/subst/>: exact-text
                 # substitutions (each must match exactly once, else the build is refused)
